@@ -18,6 +18,22 @@ def vclose(a, b, tol=TOL):
     return len(a) == len(b) and all(abs(x - y) <= tol * sc for x, y in zip(a, b))
 
 
+def exact_colloc(p, U, uk):
+    """basis values N_{i,p}(u_k) in exact arithmetic (Cox-de Boor definition, closed at the domain end) - used where the
+    entries exceed TLC's integers"""
+    n = len(U) - p - 1
+
+    def N(i, q, u):
+        if q == 0:
+            if U[i] <= u < U[i + 1]:
+                return 1
+            return 1 if (u == U[n] and U[i] < U[i + 1] == U[n]) else 0
+        a = (u - U[i]) / (U[i + q] - U[i]) * N(i, q - 1, u) if U[i + q] != U[i] else 0
+        b = (U[i + q + 1] - u) / (U[i + q + 1] - U[i + 1]) * N(i + 1, q - 1, u) if U[i + q + 1] != U[i + 1] else 0
+        return a + b
+    return [[N(i, p, u) for i in range(n)] for u in uk]
+
+
 def check_case(ctx, cs):
     from geomdl import fitting
     ctx.full = cs
@@ -29,13 +45,19 @@ def check_case(ctx, cs):
         p = o["p"]
         uk = [float(fr(x)) for x in o["uk"]]
         kv = [float(fr(x)) for x in o["kv"]]
-        N = mat(o["N"])
+        N = mat(o["N"]) if o["N"] else [[float(x) for x in row] for row in exact_colloc(p, frv(o["kv"]), frv(o["uk"]))]
         m = len(pts)
         small = {"pts": o["pts"], "degree": p, "centripetal": c["centr"]}
         if op == "interp_curve":
             tg += ["p=%d" % p, "npts=%d" % m] + (["bezier"] if m == p + 1 else [])
             ctx.count((op, str(o["pts"]), p, c["centr"]), sample={"op": op, **small, "uk": o["uk"], "kv": o["kv"]})
-            ok, crv = _try(ctx, "fitting.interpolate_curve", tg, small, lambda: fitting.interpolate_curve([list(x) for x in pts], p, centripetal=c["centr"]))
+            def interp():
+                if c["centr"]:
+                    return fitting.interpolate_curve([list(x) for x in pts], p, centripetal=True)
+                # chord length is the default: an earlier call with other options must not change what an option-free call does
+                fitting.interpolate_curve([list(x) for x in pts], p, centripetal=True)
+                return fitting.interpolate_curve([list(x) for x in pts], p)
+            ok, crv = _try(ctx, "fitting.interpolate_curve", tg, small, interp)
             if not ok:
                 return
             site = "fitting.interpolate_curve"
@@ -45,8 +67,16 @@ def check_case(ctx, cs):
             small["ctrlpts_size"] = ncp
             tg += ["p=%d" % p, "npts=%d" % m, "ncpts=%d" % ncp]
             ctx.count((op, str(o["pts"]), p, ncp, c["centr"]), sample={"op": op, **small, "kv": o["kv"]})
-            ok, crv = _try(ctx, "fitting.approximate_curve", tg, small,
-                           lambda: fitting.approximate_curve([list(x) for x in pts], p, centripetal=c["centr"], ctrlpts_size=ncp))
+            def approx():
+                if c["centr"]:
+                    return fitting.approximate_curve([list(x) for x in pts], p, centripetal=True, ctrlpts_size=ncp)
+                # defaults (chord length; number of data points - 1 control points) after a call with explicit other options
+                if m - 2 >= p + 2:          # (counts below degree + 2 are outside what the property quantifies over)
+                    fitting.approximate_curve([list(x) for x in pts], p, centripetal=True, ctrlpts_size=m - 2)
+                if ncp == m - 1:
+                    return fitting.approximate_curve([list(x) for x in pts], p)
+                return fitting.approximate_curve([list(x) for x in pts], p, ctrlpts_size=ncp)
+            ok, crv = _try(ctx, "fitting.approximate_curve", tg, small, approx)
             if not ok:
                 return
             site = "fitting.approximate_curve"
@@ -84,7 +114,12 @@ def check_case(ctx, cs):
         small = {"size_u": su, "size_v": sv, "degree_u": pu, "degree_v": pv, "pts": o["pts"]}
         tg += ["pu=%d" % pu, "pv=%d" % pv, "%dx%d" % (su, sv)]
         ctx.count((op, str(o["pts"]), pu, pv), sample={"op": op, **{k: v for k, v in small.items() if k != "pts"}, "kvu": o["kvu"]})
-        ok, srf = _try(ctx, "fitting.interpolate_surface", tg, small, lambda: fitting.interpolate_surface([list(x) for x in pts], su, sv, pu, pv, centripetal=c["centr"]))
+        def interp_s():
+            if c["centr"]:
+                return fitting.interpolate_surface([list(x) for x in pts], su, sv, pu, pv, centripetal=True)
+            fitting.interpolate_surface([list(x) for x in pts], su, sv, pu, pv, centripetal=True)
+            return fitting.interpolate_surface([list(x) for x in pts], su, sv, pu, pv)
+        ok, srf = _try(ctx, "fitting.interpolate_surface", tg, small, interp_s)
         if not ok:
             return
         site = "fitting.interpolate_surface"
